@@ -77,6 +77,27 @@ func famRelay(w *World) {
 	// cancellation as a way for a relayed call to end: callers that send cancel frames,
 	// hops that pass them on (or not)
 	sendCancel := scnChance(1, 3)
+	// a slow downstream: the hop a relay dials out on is slower than the one it receives on
+	// (4 KiB socket buffers, latency) and the relay's send buffers are a few frames deep, so a
+	// streamed request backs up in the relay ("dest conn slow" drops) while responses, errors
+	// and cancels for the same call travel the other way
+	slowCallee := scnChance(1, 3)
+	if slowCallee {
+		lat := time.Duration(1+scn(3)) * w.Grid
+		slowCap := 4 << 10
+		prev := w.linkHook
+		w.linkHook = func(l *Link) {
+			if prev != nil {
+				prev(l)
+			}
+			if strings.HasPrefix(l.A.Owner, "r") {
+				for d := 0; d < 2; d++ {
+					l.SetCapacity(d, slowCap)
+					l.SetLatency(d, lat, 0)
+				}
+			}
+		}
+	}
 	t := w.buildRelayTopoConn(nc, ns, hops, func() tchannel.ConnectionOptions {
 		co := w.connOpts()
 		co.SendCancelOnContextCanceled = sendCancel
@@ -85,12 +106,22 @@ func famRelay(w *World) {
 	}, func() tchannel.ConnectionOptions {
 		co := w.connOpts()
 		co.PropagateCancel = sendCancel && scnChance(2, 3)
+		if slowCallee {
+			co.SendBufferSize = 1 + scn(4)
+		}
 		return co
 	}, func(o *NodeOpts) {
 		o.RelayMaxTimeout = maxTO
 		o.RelayMaxTombs = tombs
 		o.RelayTimerVerify = verify
 	})
+	if scnChance(1, 4) {
+		// a slow relay host: some callbacks take a few ticks
+		k := 2 + scn(4)
+		for _, spy := range t.spies {
+			spy.Slow = k
+		}
+	}
 	withAppend := scnChance(1, 3)
 	var appends [][2][]byte
 	if withAppend {
@@ -107,7 +138,7 @@ func famRelay(w *World) {
 			t.spies[0].Downstream = append(t.spies[0].Downstream, rn.Name)
 		}
 	}
-	w.describe("relay hops=%d clients=%d servers=%d faulty=%v maxTimeout=%v tombs=%d verify=%v appends=%d sendCancel=%v", hops, nc, ns, faulty, maxTO, tombs, verify, len(appends), sendCancel)
+	w.describe("relay hops=%d clients=%d servers=%d faulty=%v maxTimeout=%v tombs=%d verify=%v appends=%d sendCancel=%v slowCallee=%v", hops, nc, ns, faulty, maxTO, tombs, verify, len(appends), sendCancel, slowCallee)
 
 	maxTimeout := time.Duration(0)
 	ntasks := 1 + scn(4)
@@ -145,8 +176,25 @@ func famRelay(w *World) {
 				s.Mode = "partialerr"
 				s.Code = 5
 				s.Msg = "half"
+			case 4:
+				// the handler answers before it has read the whole (many-frame) request: the
+				// callee's last frame meets the caller's continuation frames inside the relay
+				s.Mode = "respfirst"
+				s.Rs2, s.Rs3 = scn(2000), drawSize(100000)
+				if s.Len3 < 70000 {
+					s.Len3 = 70000 + drawSize(300000)
+				}
+				w.probe("relay.response-before-request-read")
 			default:
 				s.Mode = "echo"
+			}
+			if slowCallee && s.Mode == "echo" && scnChance(1, 3) {
+				s.Mode = "respfirst"
+				s.Rs2, s.Rs3 = scn(2000), drawSize(100000)
+				if s.Len3 < 70000 {
+					s.Len3 = 70000 + drawSize(300000)
+				}
+				w.probe("relay.response-before-request-read")
 			}
 			switch scn(4) {
 			case 0:
@@ -292,6 +340,7 @@ func (w *World) checkSlowDropTarget(r *CallRec, t *relayTopo) {
 
 func (w *World) quiesceRelay(t *relayTopo, maxTimeout time.Duration) {
 	w.QuiesceStarted = true
+	w.stopLags()
 	for _, l := range w.Net.Links {
 		l.Heal()
 	}
